@@ -12,7 +12,8 @@ Open Scope N_scope.
 
 Module UnparseEx.
   (** prog -v (Count)  -q/--qu (SetTrue)  -o/--opt <v> (Append)  -s/--set <v> (Set)
-           -m/--mu <v>{1..3} (Append, delimiter ',')  -y/--yy [<v>] (Set, 0..1, default-missing "d") *)
+           -m/--mu <v>{1..3} (Append, delimiter ',')  -y/--yy [<v>] (Set, 0..1, default-missing "d")
+           <f> (positional 1, one value)  <r>... (positional 2, 1.. values, Append) *)
   Definition v : arg := (arg_new [118]) <| a_short := Some 118 |> <| a_action := Some ACount |>.
   Definition q : arg := (arg_new [113]) <| a_short := Some 113 |> <| a_long := Some [113; 117] |> <| a_action := Some ASetTrue |>.
   Definition o : arg := (arg_new [111]) <| a_short := Some 111 |> <| a_long := Some [111; 112; 116] |> <| a_action := Some AAppend |>.
@@ -21,28 +22,34 @@ Module UnparseEx.
                           <| a_num := Some {| vmin := 1; vmax := 3 |} |> <| a_delim := Some 44 |>.
   Definition y : arg := (arg_new [121]) <| a_short := Some 121 |> <| a_long := Some [121; 121] |> <| a_action := Some ASet |>
                           <| a_num := Some {| vmin := 0; vmax := 1 |} |> <| a_default_missing := [[100]] |>.
-  Definition c0 : cmd := (cmd_new [112]) <| c_args := [v; q; o; s; m; y] |>.
+  Definition f : arg := arg_new [102].
+  Definition r : arg := (arg_new [114]) <| a_num := Some {| vmin := 1; vmax := usize_max |} |>.
+  Definition c0 : cmd := (cmd_new [112]) <| c_args := [v; q; o; s; m; y; f; r] |>.
   Definition c : cmd := build_self c0.
 
-  (** --qu -vvoAB --opt=== --mu A B,C -vm A -s= --yy -v *)
+  (** --qu F -vvoAB --opt=== --mu A B,C -vm A -s= R S --yy -v T *)
   Definition its : list item :=
     [ItLong [113; 117];
+     ItPos [[70]];
      ItCluster [118; 118] (TAtt 111 [65; 66]);
      ItLongEq [111; 112; 116] [61; 61];
      ItLongSep [109; 117] [[65]; [66; 44; 67]];
      ItCluster [118] (TSep 109 [[65]]);
      ItCluster [] (TEq 115 []);
+     ItPos [[82]; [83]];
      ItLongSep [121; 121] [];
-     ItCluster [118] TNone].
+     ItCluster [118] TNone;
+     ItPos [[84]]].
+  Definition wf := wf_items c PSValuesDone 1 its.
 
   Example ex_valid : valid c0 = true. Proof. vm_compute. reflexivity. Qed.
   Example ex_conv : conv c = true. Proof. vm_compute. reflexivity. Qed.
   Example ex_no_ignore_errors : is_set s_ignore_errors c = false. Proof. vm_compute. reflexivity. Qed.
   Example ex_no_overrides : no_overrides c = true. Proof. vm_compute. reflexivity. Qed.
-  Example ex_wf : wf_items c its = true. Proof. vm_compute. reflexivity. Qed.
+  Example ex_wf : wf_items c PSValuesDone 1 its = true. Proof. vm_compute. reflexivity. Qed.
   Example ex_render : render its =
-    [[45; 45; 113; 117]; [45; 118; 118; 111; 65; 66]; [45; 45; 111; 112; 116; 61; 61; 61];
-     [45; 45; 109; 117]; [65]; [66; 44; 67]; [45; 118; 109]; [65]; [45; 115; 61]; [45; 45; 121; 121]; [45; 118]].
+    [[45; 45; 113; 117]; [70]; [45; 118; 118; 111; 65; 66]; [45; 45; 111; 112; 116; 61; 61; 61];
+     [45; 45; 109; 117]; [65]; [66; 44; 67]; [45; 118; 109]; [65]; [45; 115; 61]; [82]; [83]; [45; 45; 121; 121]; [45; 118]; [84]].
   Proof. vm_compute. reflexivity. Qed.
 
   Definition groups_after (toks : list bytes) (i : id) : option (option groups) :=
@@ -53,21 +60,26 @@ Module UnparseEx.
     groups_after (render its) [115] = Some (Some [[[]]]) /\
     groups_after (render its) [121] = Some (Some [[[100]]]) /\
     groups_after (render its) [118] = Some (Some [[[52]]]) /\
-    groups_after (render its) [113] = Some (Some [[s_true]]).
+    groups_after (render its) [113] = Some (Some [[s_true]]) /\
+    groups_after (render its) [102] = Some (Some [[[70]]]) /\
+    groups_after (render its) [114] = Some (Some [[[82]; [83]]; [[84]]]).
   Proof. vm_compute. repeat split; reflexivity. Qed.
   Example ex_denote :
     denote_arg c [111] its = Some [[[65; 66]]; [[61; 61]]] /\
     denote_arg c [109] its = Some [[[65]; [66]; [67]]; [[65]]] /\
-    occ_groups c [109] (occs c its) = [[[65]; [66]; [67]]; [[65]]].
+    denote_arg c [114] its = Some [[[82]; [83]]; [[84]]] /\
+    occ_groups c [109] (occs c 1 its) = [[[65]; [66]; [67]]; [[65]]].
   Proof. vm_compute. repeat split; reflexivity. Qed.
   Example ex_append_hyps : exists a, get_long c [111; 112; 116] = Some a /\ In a (c_args c) /\ a_id a = [111] /\
-    a_get_action a = AAppend /\ (0 < Actions.count_occ (a_id a) (occs c its))%nat.
+    a_get_action a = AAppend /\ (0 < Actions.count_occ (a_id a) (occs c 1 its))%nat.
   Proof.
     eexists. split; [vm_compute; reflexivity|]. split; [apply (get_long_in c [111; 112; 116]); vm_compute; reflexivity|].
     split; [reflexivity|]. split; [reflexivity|]. vm_compute. repeat constructor.
   Qed.
   (** a state between two items in which an option is still open *)
-  Example ex_open_state : items_pst c PSValuesDone [ItLongSep [109; 117] [[65]]] = PSOpt [109]
-                          /\ pst_ok c (PSOpt [109]).
-  Proof. split; [vm_compute; reflexivity|]. eexists. vm_compute. reflexivity. Qed.
+  Example ex_open_state : items_pst c PSValuesDone 1 [ItLongSep [109; 117] [[65]]] = PSOpt [109]
+                          /\ pst_ok c (PSOpt [109])
+                          /\ items_pst c PSValuesDone 1 [ItPos [[70]]; ItPos [[82]]] = PSPos [114]
+                          /\ items_pos c 1 its = 2.
+  Proof. split; [vm_compute; reflexivity|]. split; [eexists; vm_compute; reflexivity|]. split; vm_compute; reflexivity. Qed.
 End UnparseEx.
